@@ -127,7 +127,7 @@ def rewrite_sync(text):
 
     def use_group(m):
         nonlocal n
-        items = [x.strip() for x in m.group(2).split(",") if x.strip()]
+        items = split_top(m.group(2))  # commas inside nested braces do not separate items
         std_items, sh_items = [], []
         for it in items:
             head = it.split("::")[0].split(" as ")[0].strip()
